@@ -218,11 +218,51 @@ def dynamic_range_case(case):
     return dict(reproduced=bool(violated), violated=violated[:12], observed=dict(count=len(violated)))
 
 
+def string_state_case(case):
+    """C14: String trait definitions survive pickle / deepcopy validating as before.  The model says which derived
+    attributes matter (regex set or not, length bounds set or not); values are a grid."""
+    import copy
+    import pickle
+    from traits.api import HasTraits, String, TraitError
+    regex = "a+b" if case.get("regex_set") else ""
+    kw = dict(minlen=2, maxlen=4) if case.get("bounded") else {}
+    violated = []
+
+    def behaviour(handler, owner):
+        out = []
+        for v in ["", "ab", "aab", "aaaab", "b", "xyz", "aaaaaaab", 3, None, 1.5]:
+            try:
+                out.append(("ok", handler.validate(owner, "s", v)))
+            except TraitError:
+                out.append(("TraitError",))
+            except Exception as e:
+                out.append((type(e).__name__, str(e)))
+        return out
+
+    class M(HasTraits):
+        s = String(regex=regex, **kw)
+    m = M()
+    h = M.class_traits()["s"].handler
+    want = behaviour(h, m)
+    for how, f in (("pickle", lambda x: pickle.loads(pickle.dumps(x))), ("deepcopy", copy.deepcopy), ("copy", copy.copy)):
+        try:
+            h2 = f(h)
+            got = behaviour(h2, m)
+        except Exception as e:
+            violated.append("%s of String(regex=%r, %r) raised %s: %s" % (how, regex, kw, type(e).__name__, e))
+            continue
+        if got != want:
+            bad = [(a, b) for a, b in zip(want, got) if a != b][:3]
+            violated.append("%s of String(regex=%r, %r): validation differs after the round trip: %r" % (how, regex, kw, bad))
+    return dict(reproduced=bool(violated), violated=violated, observed=dict(regex=regex, bounds=kw))
+
+
 def main():
     case = json.loads(sys.stdin.read())
     out = {"float_range": float_range_case, "ctrait_state": ctrait_state_case,
            "setattr_name_refcount": setattr_name_refcount_case,
-           "compound_order": compound_order_case, "compound_slow_first": compound_slow_first_case, "dynamic_range": dynamic_range_case}[case["family"]](case)
+           "compound_order": compound_order_case, "compound_slow_first": compound_slow_first_case, "dynamic_range": dynamic_range_case,
+           "string_state": string_state_case}[case["family"]](case)
     print(json.dumps(out, default=repr))
 
 
